@@ -207,14 +207,29 @@ def check_mp_unreach(v):
 
 
 def check_labeled(d, maxlen, fixed):
-    """<length, label(s) + [RD] + prefix>: length counts the fixed part too"""
+    """<length, label stack + [RD] + prefix> (RFC 8277 / 4364): the length counts labels and RD too; the label stack
+    ends at the bottom-of-stack bit (a withdrawal may carry the single value 0x800000 or 0x000000 instead); what is left
+    of the length is the prefix length, 0..maxlen, and the route occupies exactly ceil(length / 8) octets"""
     i, n = 0, len(d)
+    rd = fixed - 24
     while i < n:
         plen = d[i]
-        if plen < fixed or plen > fixed + maxlen + 24 * 3:
-            return False
         k = (plen + 7) // 8
-        if i + 1 + k > n:
+        if plen < fixed or i + 1 + k > n:
+            return False
+        j, labels = i + 1, 0
+        while True:
+            if j + 3 > i + 1 + k:
+                return False
+            labels += 1
+            last = d[j + 2] % 2 == 1 or (labels == 1 and d[j:j + 3] in (b'\x80\x00\x00', b'\x00\x00\x00'))
+            j += 3
+            if last:
+                break
+            if labels >= 8:
+                return False
+        bits = plen - 24 * labels - rd
+        if bits < 0 or bits > maxlen:
             return False
         i += 1 + k
     return i == n
@@ -396,3 +411,52 @@ def update_prefix_counts(raw, addpath=False):
     wl = u16(body, 0)
     al = u16(body, 2 + wl)
     return count_prefixes(body[2:2 + wl], addpath), count_prefixes(body[4 + wl + al:], addpath)
+
+
+def count_mp_routes(v, reach):
+    """number of routes in an MP_REACH_NLRI / MP_UNREACH_NLRI value for the length-prefixed families, else None"""
+    if reach:
+        afi, safi, nhl = u16(v, 0), v[2], v[3]
+        d = v[4 + nhl + 1:]
+    else:
+        afi, safi = u16(v, 0), v[2]
+        d = v[3:]
+    i, n, k = 0, len(d), 0
+    if (afi, safi) in ((1, 1), (2, 1)) or safi in (4, 128):
+        while i < n:
+            i += 1 + (d[i] + 7) // 8
+            k += 1
+        return k
+    if (afi, safi) == (25, 70):
+        while i + 2 <= n:
+            i += 2 + d[i + 1]
+            k += 1
+        return k
+    if safi == 133:
+        while i < n:
+            if d[i] >= 240:
+                i += 2 + (d[i] % 16) * 256 + d[i + 1]
+            else:
+                i += 1 + d[i]
+            k += 1
+        return k
+    return None
+
+
+def update_mp_counts(raw):
+    """{14: count or None, 15: count or None} for the MP attributes present in a complete UPDATE"""
+    body = raw[19:]
+    wl = u16(body, 0)
+    al = u16(body, 2 + wl)
+    d = body[4 + wl:4 + wl + al]
+    out, i = {}, 0
+    while i < len(d):
+        flags, code = d[i], d[i + 1]
+        if (flags // 16) % 2:
+            ln, hdr = u16(d, i + 2), 4
+        else:
+            ln, hdr = d[i + 2], 3
+        if code in (14, 15):
+            out[code] = count_mp_routes(d[i + hdr:i + hdr + ln], code == 14)
+        i += hdr + ln
+    return out
